@@ -6,6 +6,7 @@ count_array_init_elements → its loop; 4 per struct/union level plus 1 per memb
 further calls.  Induction over the budget for all functions at once, with the invariant "the rest is no longer than the input".
 -/
 import ChibiVerif.Model.Init
+import ChibiVerif.Lemmas.InitBracedStr
 
 namespace ChibiVerif.C13InitFuel
 open ChibiVerif.Init
@@ -236,7 +237,11 @@ theorem initializer2_succ (f : Nat) (ih : NH f) (ty : Ty) (toks : List ITok) (in
       · refine (stringInitializer_nf ..).mono ?_
         intro r hr; rw [hr]; simp only [List.length_cons]; omega
       · exact ih.arrayInit2 _ _ _ _ (by omega)
-    · exact ih.arrayInit1 _ _ _ (by omega)
+    · split
+      · rename_i hbs
+        refine (stringInitializer_nf ..).mono ?_
+        intro r hr; rw [hr]; have := bracedStr_length hbs; simp only [List.length_cons]; omega
+      · exact ih.arrayInit1 _ _ _ (by omega)
     · exact ih.arrayInit2 _ _ _ _ (by omega)
   · simp only [wt] at hf
     split
@@ -244,7 +249,11 @@ theorem initializer2_succ (f : Nat) (ih : NH f) (ty : Ty) (toks : List ITok) (in
       · refine (stringInitializer_nf ..).mono ?_
         intro r hr; rw [hr]; simp only [List.length_cons]; omega
       · exact ih.arrayInit2 _ _ _ _ (by omega)
-    · exact ih.arrayInit1 _ _ _ (by omega)
+    · split
+      · rename_i hbs
+        refine (stringInitializer_nf ..).mono ?_
+        intro r hr; rw [hr]; have := bracedStr_length hbs; simp only [List.length_cons]; omega
+      · exact ih.arrayInit1 _ _ _ (by omega)
     · exact ih.arrayInit2 _ _ _ _ (by omega)
   · -- struct
     simp only [wt] at hf
